@@ -36,9 +36,14 @@
 #define NVAL 8
 static uint8_t popcnt[NVAL + 1]; static uint8_t bad_order, bad_empty, bad_full, bad_value;
 static uint32_t pushed_done, popped_done;           /* ghost counters, incremented atomically after the call returned */
+static uint32_t push_started;                       /* ghost: incremented atomically before a push is called */
 static uint8_t done_p1, done_p2, done_c;
 uint8_t cx_popcnt[NVAL + 1]; uint8_t cx_flags;
 static void ghost_inc(uint32_t *c) { __CPROVER_atomic_begin(); (*c)++; __CPROVER_atomic_end(); }
+/* pop targets are statics: an address-taken local that goes out of scope after the threads were spawned makes CBMC write its
+   (pointer-typed) dead-object bookkeeping, which the thread encoding rejects */
+static PAY got_c, got_m;
+void st_atomic_long_set(void *p, uint64_t v) { __CPROVER_atomic_begin(); ((struct S_struct_2eff_3a_3aatomic64_t*)p)->f0 = v; __CPROVER_atomic_end(); }
 #if WHAT == 0
 static struct S_class_2eff_3a_3aSWSR_Ptr_Buffer the_s; static PAY ring[SZ];
 static void producer(void)
@@ -59,8 +64,8 @@ static void consumer(void)
 {
   uint32_t last = 0;
   for (int j = 0; j < NPOP; j++) {
-    uint32_t push0 = pushed_done; PAY got = 0;
-    uint8_t ok = vf_ts_pop(&the_s, &got) & 1;
+    uint32_t push0 = pushed_done; got_c = 0;
+    uint8_t ok = vf_ts_pop(&the_s, &got_c) & 1; PAY got = got_c;
     if (ok) { if (got < 1 || got > NVAL) bad_value = 1; else { popcnt[got]++; if (got != last + 1) bad_order = 1; last = (uint32_t)got; } ghost_inc(&popped_done); }
     else if (push0 > last) bad_empty = 1;                          /* empty reported although an element was fully pushed ahead of this pop */
   }
@@ -83,23 +88,24 @@ uint8_t st_usw_pop(void *self, PAY *out)
   __CPROVER_atomic_begin(); if (i < NQ && shead[i] < stail[i]) { *out = sring[i][shead[i]++]; r = 1; } __CPROVER_atomic_end();
   return r;
 }
-static void producer(int base, int n, uint8_t *done)
+static void producer(int base, int n, int who)
 {
-  for (int i = 1; i <= n; i++) { vf_tq_push(&the_q, (PAY)(base + i)); ghost_inc(&pushed_done); }
-  *done = 1;
+  for (int i = 1; i <= n; i++) { ghost_inc(&push_started); vf_tq_push(&the_q, (PAY)(base + i)); ghost_inc(&pushed_done); }
+  if (who == 1) done_p1 = 1; else done_p2 = 1;
 }
 static uint32_t c_popped;
 static void consumer(void)
 {
   uint32_t last1 = 0, last2 = 4;
   for (int j = 0; j < NPOP; j++) {
-    uint32_t push0 = pushed_done; PAY got = 0;
-    uint8_t ok = vf_tq_pop(&the_q, &got) & 1;
+    uint32_t push0, start0; __CPROVER_atomic_begin(); push0 = pushed_done; start0 = push_started; __CPROVER_atomic_end(); got_c = 0;
+    uint8_t ok = vf_tq_pop(&the_q, &got_c) & 1; PAY got = got_c;
     if (ok) {
       if (got < 1 || got > NVAL) bad_value = 1;
       else { popcnt[got]++; if (got <= 4) { if (got <= last1) bad_order = 1; last1 = (uint32_t)got; } else { if (got <= last2) bad_order = 1; last2 = (uint32_t)got; } }
       c_popped++;
-    } else if (push0 > c_popped) bad_empty = 1;                    /* empty although more pushes had fully completed than were popped */
+    } else if (push0 == start0 && push0 > c_popped) bad_empty = 1; /* empty although no push was in flight when the pop began and more pushes had
+                                                                      completed than were popped: then the element with the next ticket was fully pushed */
   }
   done_c = 1;
 }
@@ -113,16 +119,16 @@ int main(void)
   VF_ASSUME(done_p1 && done_c);
   /* drain what is left, sequentially */
   uint32_t total = pushed_done;
-  for (int j = 0; j < NPUSH; j++) { PAY got = 0; if (vf_ts_pop(&the_s, &got) & 1) { if (got >= 1 && got <= NVAL) popcnt[got]++; else bad_value = 1; } }
+  for (int j = 0; j < NPUSH; j++) { got_m = 0; uint8_t okm = vf_ts_pop(&the_s, &got_m) & 1; PAY got = got_m; if (okm) { if (got >= 1 && got <= NVAL) popcnt[got]++; else bad_value = 1; } }
   for (uint32_t v = 1; v <= NVAL; v++) VF_ASSERT(popcnt[v] == (v <= total ? 1 : 0), "C30: every pushed element is popped exactly once, nothing else appears");
 #else
   for (int i = 0; i < NQ; i++) subs[i] = (PAY)(i + 1);
   vf_tq_setup(&the_q, qbuf, seqp, seqc, subs, NQ);
-  __CPROVER_ASYNC_1: producer(0, P1PUSH, &done_p1);
-  __CPROVER_ASYNC_2: producer(4, P2PUSH, &done_p2);
+  __CPROVER_ASYNC_1: producer(0, P1PUSH, 1);
+  __CPROVER_ASYNC_2: producer(4, P2PUSH, 2);
   __CPROVER_ASYNC_3: consumer();
   VF_ASSUME(done_p1 && done_p2 && done_c);
-  for (int j = 0; j < P1PUSH + P2PUSH; j++) { PAY got = 0; if (vf_tq_pop(&the_q, &got) & 1) { if (got >= 1 && got <= NVAL) popcnt[got]++; else bad_value = 1; } }
+  for (int j = 0; j < P1PUSH + P2PUSH; j++) { got_m = 0; uint8_t okm = vf_tq_pop(&the_q, &got_m) & 1; PAY got = got_m; if (okm) { if (got >= 1 && got <= NVAL) popcnt[got]++; else bad_value = 1; } }
   for (uint32_t v = 1; v <= NVAL; v++) VF_ASSERT(popcnt[v] == ((v <= P1PUSH) || (v > 4 && v <= 4 + P2PUSH) ? 1 : 0), "C30: every pushed element is popped exactly once, nothing else appears");
 #endif
   for (uint32_t v = 0; v <= NVAL; v++) cx_popcnt[v] = popcnt[v];
